@@ -371,6 +371,16 @@ func (x *run) stepWipe(rs *repState, s *sim.Step) error {
 	_ = r.CloseClean()
 	rs.alive = false
 	rs.staged = map[string]bool{}
+	if s.N%2 == 1 {
+		// a configured bridge: git-bug configuration below a subsection
+		if raw0, err := openRaw(r.Dir); err == nil {
+			for k, v := range map[string]string{"target": "gitlab", "project-id": "42", "base-url": "https://gitlab.example.org", "default-login": "someone"} {
+				_ = raw0.LocalConfig().StoreString("git-bug.bridge.sim."+k, v)
+			}
+			_ = raw0.Close()
+			x.probe("wipe_with_bridge_configured")
+		}
+	}
 	foreign := map[string]string{}
 	if raw0, err := openRaw(r.Dir); err == nil {
 		t, _ := sim.RefTable(raw0, "refs/")
@@ -410,6 +420,12 @@ func (x *run) stepWipe(rs *repState, s *sim.Step) error {
 	cfg, _ := raw.LocalConfig().ReadAll("git-bug")
 	for k := range cfg {
 		x.violate("wipe-left-residue", "after wipe on %s the configuration key %s is still there", r.Name, k)
+	}
+	// and as stock git would see the file (sections and subsections alike)
+	for k := range parseGitConfig(filepath.Join(r.Dir, ".git", "config")) {
+		if strings.HasPrefix(k, "git-bug.") {
+			x.violate("wipe-left-residue", "after wipe on %s the configuration file still holds %s", r.Name, k)
+		}
 	}
 	if _, err := os.Stat(filepath.Join(r.Dir, ".git", "git-bug")); err == nil {
 		entries, _ := os.ReadDir(filepath.Join(r.Dir, ".git", "git-bug"))
